@@ -12,6 +12,8 @@ import (
 
 var gens = map[string]func(props.Ctx) *report.Report{
 	"C20": props.C20,
+	"CALC": props.CalcAll,
+	"HIST": props.HistAll,
 }
 
 func main() {
